@@ -1,6 +1,6 @@
 (* C03 -- the restraint object (C06 model of the repaired code + what the state file persists) is resumable. *)
 From Coq Require Import ZArith List Bool Lia.
-From CV Require Import Base.Num C03.ResumeModel C03.ResumeProofs C06.RestraintModel C03.ObjectsModel.
+From CV Require Import Base.Num C03.ResumeModel C03.ResumeProofs C06.RestraintModel C06.RestraintSched C03.ObjectsModel.
 Import ListNotations.
 Local Open Scope Z_scope.
 
@@ -153,4 +153,5 @@ Section RestraintResume.
         destruct (c_acc_work c) eqn:Eaw; cbn [andb] in *; prj; repeat split; auto.
       + prj. repeat split; auto.
   Qed.
+
 End RestraintResume.
